@@ -153,6 +153,17 @@ func judgeFrame(w *sim.Snap) (rule, sig, msg string) {
 	}
 	anchorRow := w.AnchorAbsRow - t.Scrolled
 	anchorCol := w.ReportCol - 1
+	if w.ReportWrap {
+		// the prompt filled its row exactly: the terminal answered with the last column while
+		// in pending-wrap state; the next glyph goes to column 0 of the next row
+		anchorRow, anchorCol = anchorRow+1, 0
+	}
+	// a zero-width rune without a base glyph (start of buffer or of a line) has no cell of its own
+	for i, r := range buf {
+		if emu.RuneWidth(r) == 0 && (i == 0 || buf[i-1] == '\n') {
+			return "unjudged", "", ""
+		}
+	}
 	if anchorRow < 0 {
 		return "unjudged", "", "" // the start of the input area scrolled off the screen
 	}
@@ -394,6 +405,9 @@ func execC04(x *Ctx, sc *wire.Scenario) *wire.Result {
 	lastUnknown := 0
 	for i := range out.Waits {
 		w := &out.Waits[i]
+		if out.Extra["resized"] == true && w.Dirty {
+			resized = true
+		}
 		if w.Kind != "main" || w.Partial != 0 {
 			continue
 		}
